@@ -81,6 +81,26 @@ func NewPair(prog *hast.Program, scripts []string, o PairOpts, garbage *core.Ran
 		p.RLog.Add("bump()=" + nv.String())
 		return nv, true, nil
 	}
+	// wipe(): a host function that clears the variable store it was given (a "new game" button wired to a
+	// script function) and returns 1
+	mfuncs["wipe"] = func(a []model.Val) (model.Val, bool, error) {
+		for k := range p.M.Vars {
+			delete(p.M.Vars, k)
+		}
+		p.MLog.Add("wipe()")
+		return model.N(1), true, nil
+	}
+	rfuncs["wipe"] = func(a []model.Val) (model.Val, bool, error) {
+		if p.Rec != nil {
+			for k := range p.Rec.Vals() {
+				delete(p.Rec.Vals(), k)
+			}
+		} else {
+			p.Def.Clear()
+		}
+		p.RLog.Add("wipe()")
+		return model.N(1), true, nil
+	}
 	host := &model.Host{Funcs: mfuncs, Cmds: mcmds}
 	p.M = model.New(prog, host, o.Pre)
 	var st variable.Storer
@@ -377,5 +397,8 @@ func shapeFeatures(c *core.Ctx, prog *hast.Program) {
 	}
 	if dup {
 		c.Feature("program-with-a-title-defined-twice")
+	}
+	if len(prog.Nodes) > 0 && prog.Nodes[0].Title == "" {
+		c.Feature("program-whose-first-node-has-an-empty-title")
 	}
 }
